@@ -470,8 +470,70 @@ func ruleC16Priority(w *World, r *Report, info *P4Info) {
 	r.check(allowedMax >= 0, "R16.6", w.FuncName(verify), "verifyPDR bounds the precedence", w.Pos(verify.Pos()), fmt.Sprintf("precedence ≤ %d accepted", allowedMax), "verifyPDR no longer rejects large precedences")
 	// verifyPDR's error is honoured before any builder is reached
 	vcalls := callsTo(mod, verify)
-	r.floor("R16.6 verifyPDR calls", len(vcalls), 1)
 	cg := w.CG()
+	// when the orchestrator does not verify each PDR itself, every caller must have verified the whole
+	// list it hands over: a loop over that list with verifyPDR on every iteration, its error returned,
+	// dominating the call
+	callerVerifies := func(e *Edge) bool {
+		caller := e.Caller
+		ci, ok := e.Site.(ssa.CallInstruction)
+		if !ok {
+			return false
+		}
+		// the pdrs argument of the orchestrator
+		var listArg ssa.Value
+		for k, p := range mod.Params {
+			if p.Name() == "pdrs" && k < len(ci.Common().Args) {
+				listArg = ci.Common().Args[k]
+			}
+		}
+		if listArg == nil {
+			return false
+		}
+		want := symOf(listArg).String()
+		for _, vc := range callsTo(caller, verify) {
+			vcall := vc.(*ssa.Call)
+			as := symOf(vcall.Call.Args[0]).String()
+			if !strings.HasPrefix(as, want) {
+				continue
+			}
+			// error honoured, and the call site is reachable only after the loop ran over the list
+			if errGuarded(caller, vcall, vcall, func(i ssa.Instruction) bool { return i == e.Site }) && reach(caller, vcall, func(i ssa.Instruction) bool { return i == e.Site }, nil, nil) != nil {
+				// the loop covers the list: verify sits in a full range loop over `want`
+				for _, lp := range rangeLoopsOver(caller, lastSeg(want)) {
+					if everyIteration(caller, lp[1], lp[0], func(i ssa.Instruction) bool { return i == ssa.Instruction(vcall) }) && lp[0].Dominates(e.Site.Block()) {
+						return true
+					}
+				}
+			}
+		}
+		return false
+	}
+	if len(vcalls) == 0 {
+		nC := 0
+		for _, e := range cg.callersOf(mod) {
+			if strings.HasPrefix(w.FuncName(e.Caller), "test/") {
+				continue
+			}
+			// a DELETE removes rules that were verified when they were installed
+			isDelete := false
+			if ci, ok := e.Site.(ssa.CallInstruction); ok {
+				for k, p := range mod.Params {
+					if p.Name() == "methodType" && k < len(ci.Common().Args) {
+						if v, isK := constInt(ci.Common().Args[k]); isK && v == 3 {
+							isDelete = true
+						}
+					}
+				}
+			}
+			if isDelete {
+				continue
+			}
+			nC++
+			r.check(callerVerifies(e), "R16.6", w.FuncName(e.Caller), "PDRs handed to the orchestrator were verified (verifyPDR over the whole list, error returned)", w.Pos(e.Site.Pos()), "verifying loop dominates the call", w.FuncName(e.Caller)+" programs PDRs that verifyPDR never saw (the check is made on another path only): a precedence of 65535 gives priority 0 on a ternary/range table")
+		}
+		r.check(nC > 0, "R16.6", w.FuncName(mod), "the orchestrator is called", w.Pos(mod.Pos()), fmt.Sprint(nC), "no caller of the orchestrator found")
+	}
 	for _, f := range w.Funcs {
 		if f.Pkg == nil || f.Pkg.Pkg.Path() != pfcpPkg {
 			continue
@@ -513,7 +575,7 @@ func ruleC16Priority(w *World, r *Report, info *P4Info) {
 			for _, c := range callsIn(mod, func(c ssa.CallInstruction) bool {
 				return cg.siteReaches(c, func(g *ssa.Function) bool { return g == f })
 			}) {
-				guarded := false
+				guarded := len(vcalls) == 0 // then the callers carry the obligation (above)
 				for _, vc := range vcalls {
 					vcall := vc.(*ssa.Call)
 					if instrDominates(vcall, c.(ssa.Instruction)) && errGuarded(mod, vcall, vcall, func(i ssa.Instruction) bool { return i == c.(ssa.Instruction) }) {
@@ -1174,4 +1236,12 @@ func ruleC16Generator(w *World, r *Report) {
 	}
 	r.floor("R16.9 range statements in the generator", nranges, 20)
 	r.floor("R16.9 ranges over maps in the generator", nmaps, 2)
+}
+
+
+func lastSeg(s string) string {
+	if i := strings.LastIndex(s, "."); i >= 0 {
+		return s[i+1:]
+	}
+	return s
 }
